@@ -269,6 +269,10 @@ class Num:
             sa, sb = a._sign(), b._sign()
             inf = z3.If(z3.Or(ia != 0, ib != 0), z3.If(sa == sb, 1, -1), 0)
             return Num(zmul(a.v, b.v), nan, z3.simplify(inf))
+        if kind in ('div', 'rdiv') and kind == 'div' and not z3.is_expr(b.v) and b.is_plain() and b.v != 0:
+            # division by a concrete finite non-zero number
+            sgn = 1 if b.v > 0 else -1
+            return Num(Num._div(a.v, b.v), a.nan, z3.simplify(ia * sgn))
         raise Unsupported("arithmetic on possibly-infinite value")
 
     def __add__(self, o): return self._bin(o, operator.add, 'add')
@@ -290,8 +294,8 @@ class Num:
         br = z3.ToReal(b) if z3.is_expr(b) and z3.is_int(b) else (z3.RealVal(b) if not z3.is_expr(b) else b)
         return ar / br
 
-    def __truediv__(self, o): return self._bin(o, Num._div)
-    def __rtruediv__(self, o): return self._bin(o, lambda a, b: Num._div(b, a))
+    def __truediv__(self, o): return self._bin(o, Num._div, 'div')
+    def __rtruediv__(self, o): return self._bin(o, lambda a, b: Num._div(b, a), 'rdiv')
 
     def __neg__(self):
         return Num(-self.v, self.nan, -self.inf)
